@@ -71,7 +71,8 @@ def find(d, path):
     return d
 
 
-FAULT_KINDS = ["enum", "below_min", "above_max", "arity", "wrong_type", "unknown_keyword", "missing_required", "list_item", "repeated_item"]
+FAULT_KINDS = ["enum", "below_min", "above_max", "arity", "wrong_type", "unknown_keyword", "missing_required", "list_item", "repeated_item",
+               "member_not_object"]
 
 
 def candidate_faults(obj):
@@ -142,6 +143,14 @@ def apply_fault(ch, d, site, cand):
     """Mutate dictionary d at the object `site`.  -> fault record or None when the drawn value is not invalid."""
     mpath, obj, dpath = site
     i, key, kind = cand
+    if kind == "member_not_object":
+        # a member of a list of child objects (layers, classes, styles, ...) replaced by a scalar: wrong JSON type for the item
+        if not dpath or not isinstance(dpath[-1], int):
+            return None
+        lst = find(d, dpath[:-1])
+        lst[dpath[-1]] = ch.choice([5, "oops", True, 2.5])
+        return {"kind": kind, "dpath": list(dpath[:-2]), "name": str(dpath[-2]).upper(), "object_level": False, "mpath": list(mpath[:-1]), "item": None,
+                "key": dpath[-2], "index": dpath[-1], "value": repr(lst[dpath[-1]])}
     o = find(d, dpath)
     t = obj["t"]
     if kind == "unknown_keyword":
